@@ -9,7 +9,8 @@ CONSTANTS
   Ops = {1, 2, 3}
   MaxInFlight = 3
   AuctionImpl = "intended"
+  Resolution = "locked"
   MaxRounds = 0
-INVARIANTS TypeOKC12 KeepsLastGood FallbackWhenNone AnswersRight LockBalanced LockAccounting
+INVARIANTS TypeOKC12 KeepsLastGood FallbackWhenNone AnswersRight AnswersInForce LockBalanced LockAccounting
 PROPERTY NoWedge
 CHECK_DEADLOCK FALSE
